@@ -22,7 +22,11 @@ Verdict(t) ==
          \* quantile sample in a later set_index): the divisions it arrives at need not be those of the uncut plan
          \* nor when the cut collection contains a sort whose divisions are quantiles of its input and the rest filters rows (uncut, the
          \* filter is pushed below the sort: other sample, other - equally valid - divisions)
-         ELSE IF t.div_known_uncut /\ t.div_known_cut /\ ~t.div_loss_documented /\ ~t.div_sample_may_differ /\ t.div_uncut # t.div_cut THEN "SameDivisions"
+         \* the uncut query has the divisions it DECLARES before optimization (div_uncut) and the divisions it RUNS with (div_uncut_run, those
+         \* of its optimized plan); they differ when the optimizer moves a row filter below a quantile-planned set_index / sort. A cut
+         \* materializes the optimized head, so the cut query may carry either - but nothing else
+         ELSE IF t.div_known_uncut /\ t.div_known_cut /\ ~t.div_loss_documented /\ ~t.div_sample_may_differ /\ t.div_uncut # t.div_cut
+                 /\ ~(t.div_known_uncut_run /\ t.div_uncut_run = t.div_cut) THEN "SameDivisions"
          ELSE IF t.div_known_uncut /\ ~t.div_known_cut /\ ~t.div_loss_documented THEN "DivisionsLost"
          ELSE IF t.has_graph /\ GraphVerdict(t.graph, t.outs) # "ok" THEN "Graph:" \o GraphVerdict(t.graph, t.outs)
          ELSE "ok"
